@@ -126,6 +126,9 @@ func genSDCase(r *rand.Rand) SDCase {
 			t[c.Datasets[b]] = mk(c.Datasets[b])
 			c.Ops = append(c.Ops, SDOp{Kind: "txn", Txn: t})
 			tags["txn"] = true
+		case k < 83:
+			c.Ops = append(c.Ops, genBadTxn(r, c.Datasets, len(c.Ops)))
+			tags["rejected-txn"] = true
 		default:
 			c.Ops = append(c.Ops, SDOp{Kind: "read", Reader: r.Intn(nReaders)})
 		}
@@ -356,6 +359,8 @@ func (s *sdRun) apply(op SDOp) error {
 			return err
 		}
 		s.m.ApplyTxn(op.Txn)
+	case "badtxn":
+		s.applyBadTxn(op)
 	case "read":
 		s.stepReader(s.readers[op.Reader])
 	default:
@@ -372,9 +377,9 @@ func sameEnt(a, b *model.Ent) bool {
 
 func touched(op SDOp) []string {
 	switch op.Kind {
-	case "batch":
+	case "batch", "replicate":
 		return []string{op.DS}
-	case "txn":
+	case "txn", "badtxn":
 		var r []string
 		for k := range op.Txn {
 			r = append(r, k)
@@ -1219,4 +1224,43 @@ func parsePairs(a string) map[model.Pair]bool {
 		m[model.Pair{Pred: x[:i], Other: x[i+1:]}] = true
 	}
 	return m
+}
+
+// genBadTxn: a transaction over all given datasets with brand-new ids; the entity of dataset op.DS is made invalid
+// (nil reference value, as a JavaScript transform can produce it) before it is executed. The transaction must be
+// refused as a whole: nothing stored, no identifier half-registered, no counter moved.
+func genBadTxn(r *rand.Rand, datasets []string, n int) SDOp {
+	t := map[string][]model.Ent{}
+	for i, d := range datasets {
+		t[d] = []model.Ent{{ID: fmt.Sprintf("%srejected-%d-%d", gen.NsA, n, i), Props: map[string]any{gen.NsP + "k0": float64(i)}, Refs: map[string]any{gen.NsR + "r0": gen.NsA + "e0"}}}
+	}
+	return SDOp{Kind: "badtxn", DS: datasets[r.Intn(len(datasets))], Txn: t}
+}
+
+func (s *sdRun) applyBadTxn(op SDOp) {
+	t := map[string][]model.Ent{}
+	for d, ents := range op.Txn {
+		if s.m.Live(d) != nil {
+			t[d] = ents
+		}
+	}
+	if len(t) < 2 || t[op.DS] == nil {
+		return
+	}
+	esp := server.NewEntityStreamParser(s.core.Store)
+	txn, err := esp.ParseTransaction(bytes.NewReader(gen.TxnPayload(t)))
+	if err != nil {
+		return
+	}
+	for _, e := range txn.DatasetEntities[op.DS] {
+		for k := range e.References {
+			e.References[k] = nil
+		}
+	}
+	if err := s.core.Store.ExecuteTransaction(txn); err == nil {
+		s.viol("C04", "invalid-transaction-accepted", fmt.Sprintf("a transaction over %d datasets whose entity for %s carries a nil reference value was accepted", len(t), op.DS), nil, nil)
+		s.abort = true
+		return
+	}
+	s.ctx.Out.Stat("rejected_transactions", 1)
 }
